@@ -283,6 +283,30 @@ ENVNAMES = {'myth_globalattr_default_stacksize': ['MYTH_DEF_STKSIZE'], 'myth_glo
             'myth_globalattr_default_num_workers': ['MYTH_NUM_WORKERS', 'MYTH_WORKER_NUM']}
 
 
+def rule4_attr_defined(ctx, fl):
+    """myth_globalattr_init_body hands out an attribute object whose every field has a defined value, each default-valued field
+    from the function that computes that field's default"""
+    v = ctx.view(INITF, roots=['myth_globalattr_init_body'],
+                 stops=tuple('myth_globalattr_default_' + n for n in ('stacksize', 'guardsize', 'num_workers', 'bind_workers', 'child_first')),
+                 flavour=fl)
+    f = ctx.need_fn(v, 'myth_globalattr_init_body')
+    fields = [x['name'] for x in v.structs.get('myth_globalattr_t', {}).get('fields', [])]
+    ctx.ob('C15.4', 'global attribute fields known', len(fields) >= 6, 'struct layout from debug info', loc=f.loc)
+    DEF = {'stacksize': 'stacksize', 'guardsize': 'guardsize', 'n_workers': 'num_workers', 'bind_workers': 'bind_workers', 'child_first': 'child_first'}
+    whole = [c for c in f.calls() if (c.callee or '').startswith('llvm.memcpy') and same_value(f, f.ap(c.args[0]).root, 'a0')]
+    for name in fields:
+        sts = [st for st in f.stores_to('myth_globalattr_t.' + name) if same_value(f, f.ap(st.ops[1]).root, 'a0')]
+        if whole and not sts:
+            continue    # copied as a block from a local that SROA did not split: the field stores are not visible, nothing is claimed
+        ok = bool(sts) and not any(isinstance(st.ops[0], dict) and st.ops[0].get('undef') for st in sts)
+        if ok and name in DEF:
+            ok = all(any(k in f.insts and f.insts[k].op == 'call' and f.insts[k].callee == 'myth_globalattr_default_' + DEF[name]
+                         for k in f.sources(st.ops[0])) for st in sts)
+        ctx.ob('C15.4', 'myth_globalattr_init_body: %s gets %s' % (name, 'its default' if name in DEF else 'a defined value'), ok,
+               'a field left unwritten takes whatever the stack held (e.g. a random creation order or worker binding for every '
+               'program that relies on the defaults)', loc=(sts[0].loc if sts else f.loc))
+
+
 def rule4_signed(ctx, fl):
     ctx.doc('C15.4', 'myth_globalattr_default_stacksize / guardsize / num_workers: the decision "value <= 0 -> use the default" '
             'is a signed comparison (sle 0 / slt 1) on the sign-extended atoi result, and the parsed value is returned only on '
@@ -522,6 +546,8 @@ def rule8_internal_barrier(ctx, fl):
 def run(ctx):
     for fl in flavours(ctx):
         ctx.unit = fl
+        ctx.doc('C15.9', 'native API forwarding: each public entry point of this property reaches the implementation of the same name with its parameters in order and returns its result (sibling slips such as trylock -> lock, signal -> broadcast, swapped arguments)')
+        lib.native_forwarding(ctx, 'C15.9', fl, lambda n: n in ('myth_init', 'myth_init_ex', 'myth_fini', 'myth_get_worker_num', 'myth_get_num_workers') or n.startswith('myth_globalattr_'), floor=10)
         rule6_progress(ctx, fl)
         rule8_internal_barrier(ctx, fl)
         rule7_worker_record(ctx, fl)
@@ -529,6 +555,16 @@ def run(ctx):
         rule2_noabort(ctx, fl)
         rule3_bounds(ctx, fl)
         rule4_signed(ctx, fl)
+        rule4_attr_defined(ctx, fl)
+        ctx.doc('C15.10', 'global attribute accessors: myth_globalattr_set_<X> stores its argument in field X (of the given object or of '
+                'g_attr) and nothing else, get_<X> reads the same field - "runs with the number of workers / stack size requested '
+                'through the global attributes" presupposes that the request lands in the field initialisation reads')
+        NAMES = ('stacksize', 'guardsize', 'n_workers', 'bind_workers', 'child_first')
+        vg = ctx.view('myth_if_native.c', roots=['myth_globalattr_%s_%s_body' % (a, x) for a in ('set', 'get') for x in NAMES],
+                      stops=('myth_globalattr_init_body',), flavour=fl)
+        lib.accessor_agreement(ctx, 'C15.10', vg, 'myth_globalattr_t', 'myth_globalattr_set_%s_body', 'myth_globalattr_get_%s_body',
+                               dict((x, [(1, x)]) for x in NAMES))
+        ctx.floor('C15.10', 10)
         rule5_workers(ctx, fl)
 
 
@@ -536,6 +572,10 @@ INITC = 'src/myth_init.c'
 BIND = 'src/myth_bind_worker.c'
 INITH = 'src/myth_init_func.h'
 MUTANTS = [
+    {'name': 'myth_globalattr_set_n_workers writes bind_workers', 'expect': 'C15.10',
+     'edits': [('src/myth_init_func.h', "  attr->n_workers = n_workers;", "  attr->bind_workers = n_workers;")]},
+    {'name': 'global attribute default for child_first never written (sweep M0334, passes the suite)', 'expect': 'C15.4',
+     'edits': [('src/myth_init_func.h', "  a.child_first = myth_globalattr_default_child_first();\n", "")]},
     {'name': 'start-up barrier keeps the arrival counts of the previous lifecycle (seed3 C15/m1)', 'expect': 'C15.8',
      'edits': [('src/myth_internal_barrier.c', "  b->phase = 0;\t\t\t/* 0 : 0 -> n; 1 : n -> 0 */\n  b->cur[0] = b->cur[1] = 0;", "  b->phase = 0;\t\t\t/* 0 : 0 -> n; 1 : n -> 0 */")]},
     {'name': 'exit path forgets to tell the workers to stop (sweep M0520)', 'expect': 'C15.1',
